@@ -62,13 +62,17 @@ def dictSet : Dict → Entry → Dict
   | [], e => [e]
   | x :: xs, e => if x.obj.name = e.obj.name then e :: xs else x :: dictSet xs e
 
-/-- what the recursion delivers for one `parent_ref`: priority of `parent_ref.layer`,
-    `get_not_inherited(parent_ref)`, `parent_dl._compute_available_objects(...)` -/
+/-- what the recursion delivers for one `parent_ref`: the type of `parent_ref.layer` (only its
+    `inheritance_priority` is ever read), `get_not_inherited(parent_ref)`,
+    `parent_dl._compute_available_objects(...)` -/
 structure ParentRes where
-  prio : Nat
+  kind : LayerKind
   excl : List Name
   objs : List Obj
 deriving Repr
+
+/-- `parent_dl.variant_type.inheritance_priority` -/
+def ParentRes.prio (r : ParentRes) : Nat := r.kind.prio
 
 /-- stable insertion, descending by priority -/
 def insertDesc (x : ParentRes) : List ParentRes → List ParentRes
@@ -122,7 +126,7 @@ def computeParents : List (Layer × List Name) → Except Err (List ParentRes)
     | .ok objs =>
       match computeParents rest with
       | .error e => .error e
-      | .ok rs => .ok (⟨p.kind.prio, excl, objs⟩ :: rs)
+      | .ok rs => .ok (⟨p.kind, excl, objs⟩ :: rs)
 end
 
 end OdxVerif.Inherit
